@@ -25,6 +25,11 @@ int MPI_Comm_split(MPI_Comm,int,int,MPI_Comm*); int MPI_Comm_split_type(MPI_Comm
 int MPI_Allgather(const void*,int,MPI_Datatype,void*,int,MPI_Datatype,MPI_Comm);
 int MPI_Allreduce(const void*,void*,int,MPI_Datatype,MPI_Op,MPI_Comm);
 int MPI_Iallreduce(const void*,void*,int,MPI_Datatype,MPI_Op,MPI_Comm,MPI_Request*); int MPI_Ibarrier(MPI_Comm, MPI_Request*);
+#define MPI_IDENT 0
+#define MPI_CONGRUENT 1
+#define MPI_SIMILAR 2
+#define MPI_UNEQUAL 3
+int MPI_Comm_compare(MPI_Comm, MPI_Comm, int*); int MPI_Request_free(MPI_Request*);
 int MPI_Exscan(const void*,void*,int,MPI_Datatype,MPI_Op,MPI_Comm); int MPI_Scan(const void*,void*,int,MPI_Datatype,MPI_Op,MPI_Comm);
 int MPI_Bcast(void*,int,MPI_Datatype,int,MPI_Comm); int MPI_Barrier(MPI_Comm);
 int MPI_Send(const void*,int,MPI_Datatype,int,int,MPI_Comm); int MPI_Recv(void*,int,MPI_Datatype,int,int,MPI_Comm,MPI_Status*);
